@@ -136,7 +136,7 @@ def postcondition(r, user, status, before, after):
             return "the stored item has UID %s" % _items(after[coll])[href][0]
         return unchanged_except(item=(coll, href))
     if m == "DELETE":
-        if r.get("as_collection"):
+        if r.get("as_collection") or target in before:       # (a collection can be addressed without the trailing slash)
             if any(p[:len(target)] == target for p in after):
                 return "the collection or something below it still exists"
             return unchanged_except(paths_prefix=(target,))
